@@ -59,7 +59,14 @@ CHECKS.append(chk("C13", "exploration",
     "Generated multi-writer histories with a table created with the readonly option on its own object-store client, driven through SELECT, s3db_refresh, s3db_version, an s3db_changes table over it, s3db_vacuum with any cutoff and INSERT/UPDATE/DELETE attempts inside and outside transactions while other writers keep committing; invariant after every step: that client's request log holds no PUT and no DELETE; write statements addressing at least one row fail; its rows equal the reference model of what was committed at its last open/refresh.",
     "stateful property-based testing (rapid): invariant over the per-client request log of the fake object store + model"))
 
-for pid in ["C03","C04","C05","C14","C15","C17","C18","C19","C20"]:
+CHECKS.append(chk("C04", "fault_enumeration",
+    "A generated committed multi-writer prefix is followed by a victim (read-write open that may commit a merge, then nothing / an autocommit statement / a transaction of 1-4 statements / s3db_vacuum). A fault-free reference run gives the contents before and after and the number M of mutating requests; for every k in 0..M (exhaustive per case) the victim is re-run on a fresh copy of the bucket with every request after its k-th mutation failing (the process dies), then a read-only, a read-write and a third recovery open must succeed, agree, show exactly the old or the new contents (new if acknowledged; unchanged for vacuum), and the current versions must resolve all node links.",
+    "property-based generation of histories (rapid) + exhaustive crash-point enumeration per case through the fake object store"))
+CHECKS.append(chk("C14", "fault_enumeration",
+    "A generated committed prefix, then one target statement on a fresh handle (full/point/descending SELECT, autocommit write, transaction, s3db_refresh, s3db_version, s3db_changes read, s3db_vacuum, CREATE of a further table; read-only handles keep several versions unmerged so merges run under fault). A reference run gives result and request count R; the statement is re-run for every p<R with a single transport error at p and with persistent failure from p on, and once with the connection deadline in the past: it must return an error or exactly the reference result, stay within 50R+1000 requests (no retry loop; a panic kills the worker and is reported from the journal), and after the fault clears s3db_refresh on the same connection and a fresh connection must agree, show exactly the contents before or after the statement (after if it reported success) and accept a follow-up write that a fresh open sees.",
+    "property-based generation of programs (rapid) + exhaustive single/persistent fault enumeration per statement through the fake object store"))
+
+for pid in ["C03","C05","C15","C17","C18","C19","C20"]:
     NOT_YET[pid] = "check under construction in this session (designed in DESIGN.md section 5); not claimed until its quick tier runs clean on the unchanged tree"
 
 MANIFEST = {
